@@ -322,10 +322,21 @@ def power_point(ctx, cname):
             p = np.array(p[:dim])
             for form in ('1d', 'list'):
                 cid = 'C09/%s/point/M=%d/p=%s/%s' % (cname, M, pn, form)
-                if not ctx.want(cid):
+                if not (ctx.want(cid) or ctx.want(cid + '/mixed')):
                     continue
                 ctx.case(cid, key=cid, trivial=(M == 1))
                 ks = [3 + j for j in range(M)]
+                arg = (lambda: p.copy()) if form == '1d' else (lambda: p.tolist())
+                if ctx.want(cid + '/mixed') and M > 1:
+                    # poses of mixed kinds: the identity / a pure translation first, the others later (and the reverse)
+                    for tag, ksm in (('I-first', ['I'] + ks[1:]), ('P-first', ['P'] + ks[1:]), ('I-last', ks[:-1] + ['I']), ('P-mid', ks[:1] + ['P'] + ks[2:])):
+                        okm, resm = call(lambda: build(cname, ksm) * arg())
+                        Pm_ = dict(cls=cname, op='point', M=M, point=pn, form=form, mixed=tag)
+                        ctx.case(cid + '/mixed', key=cid + tag)
+                        if not okm:
+                            ctx.fail(cid + '/mixed', cname + '.mul', 'raises:' + type(resm).__name__, Pm_, '%r' % (resm,))
+                        elif not (isinstance(resm, np.ndarray) and resm.shape == (dim, M)) or not all(same(resm[:, i], build(cname, [kk]) * arg()) for i, kk in enumerate(ksm)):
+                            ctx.fail(cid + '/mixed', cname + '.mul', 'mismatch', dict(Pm_, what='value'), 'poses of mixed kinds (%s): column i is not pose i applied to the point' % tag)
                 P = dict(cls=cname, op='point', M=M, point=pn, form=form)
                 arg = (lambda: p.copy()) if form == '1d' else (lambda: p.tolist())
                 ok, res = call(lambda: build(cname, ks) * arg())
